@@ -3,6 +3,7 @@ package rules
 import (
 	"go/constant"
 	"go/token"
+	"go/types"
 	"strings"
 
 	"golang.org/x/tools/go/ssa"
@@ -219,4 +220,53 @@ func guardedByQuoteFreePredicate(f *ssa.Function, at ssa.Instruction, v ssa.Valu
 		}
 	}
 	return false
+}
+
+// sectionWindow (R12.7 / R13.5): a MIME section only ever slices its own window of the message.
+func (c *Ctx) sectionWindow(rule string) {
+	P, R := c.P, c.R
+	R.Explain(rule, "containment by construction: in package rfc822 every slice of a Section's literal taken by a method of Section has an explicit lower and upper bound, each read from an offset field of the same Section (header/body/end): a part - and the boundary scanner that discovers its children - never sees bytes outside [start,end) of the part, so every reported part lies inside its parent and BODY[n.m] is that part's bytes.  What the offsets are is decided by the scanner and not checked here.")
+	n := 0
+	for _, f := range c.funcsInPkg("rfc822") {
+		rn := engine.RecvNamed(f)
+		if rn == nil || rn.Obj().Name() != "Section" || len(f.Params) == 0 {
+			continue
+		}
+		for _, b := range f.Blocks {
+			for _, in := range b.Instrs {
+				sl, ok := in.(*ssa.Slice)
+				if !ok {
+					continue
+				}
+				ld, ok := sl.X.(*ssa.UnOp)
+				if !ok {
+					continue
+				}
+				fa, ok := ld.X.(*ssa.FieldAddr)
+				if !ok || fieldOfAddr(fa).Name() != "literal" || engine.AccessPath(fa.X) != f.Params[0].Name() {
+					continue
+				}
+				n++
+				offsetOfSelf := func(v ssa.Value) bool {
+					if v == nil {
+						return false
+					}
+					u, ok := v.(*ssa.UnOp)
+					if !ok {
+						return false
+					}
+					ofa, ok := u.X.(*ssa.FieldAddr)
+					return ok && engine.AccessPath(ofa.X) == f.Params[0].Name() && isIntKind(fieldOfAddr(ofa).Type())
+				}
+				ok2 := offsetOfSelf(sl.Low) && offsetOfSelf(sl.High)
+				R.Check(ok2, rule, fmtf("%s|literal[%s:%s]", c.name(f), optName(sl.Low), optName(sl.High)), P.Pos(sl.Pos()), "window bounded by the section's own offsets", "a Section slices the message literal without bounding it by its own offsets on both sides: the part (or the scanner looking for its children) sees bytes of its siblings/parent, so reported parts overlap and sizes/bodies are wrong")
+			}
+		}
+	}
+	R.Min(rule, "slices of Section.literal in Section methods", n, 4)
+}
+
+func isIntKind(t types.Type) bool {
+	b, ok := t.Underlying().(*types.Basic)
+	return ok && b.Info()&types.IsInteger != 0
 }
